@@ -2,7 +2,7 @@
 # scripts/confirm_seed.sh <seed-src-dir> <A|B> — independently confirm a seeded change in a scratch worktree:
 # builds, existing tests pass, demo fails with the change, demo passes without it. Prints CONFIRMED or the reason.
 set -u
-export GOFLAGS=-mod=mod GOPROXY=off GOSUMDB=off GOTOOLCHAIN=local
+export GOPROXY=off GOSUMDB=off GOTOOLCHAIN=local; unset GOFLAGS  # the repository is in go.work mode
 src="$1"; L="$2"
 patch="$src/$L.patch.diff"; demo="$src/${L}_demo_test.go"; meta="$src/$L.meta.json"
 [ -f "$patch" ] && [ -f "$demo" ] && [ -f "$meta" ] || { echo "MISSING files for $L in $src"; exit 2; }
